@@ -213,6 +213,10 @@ def shared_selector_family():
         out.append("Select(ds, lambda e: (lambda last: (e.a, e.b, e.met)[last] - (e.met, e.b, e.a)[last])(%s))" % idx)
         out.append("(lambda i: (lambda j: ((1, 2, 3)[i], (4, 5, 6)[j], (7, 8, 9)[i]))(i))(%s)" % idx)
         out.append("(lambda i: {'k': (1, 2)[i], 'c': [(3, 4)[i], (5, 6)[i]]})(%s)" % idx)
+    # starred arguments of called lambdas: python expands them, the simplifier must leave the call alone (F29)
+    out += ["Select(ds, lambda x: (lambda a: a)(*(x,)))", "(lambda a, b: a + b)(*(1, 2))", "(lambda a, b: a - b)(1, *(2,))",
+            "Select(ds, lambda e: (lambda a, b: (a, b)[0])(*(e.a, e.b)))", "(lambda a: Select(ds, lambda e: e.a + a))(*(3,))",
+            "Select(Select(ds, lambda e: (e.a, e.b)), lambda t: (lambda a, b: a + b)(*t))"]
     return out
 
 
